@@ -164,7 +164,7 @@ where
     I::Span: Clone + 's,
     Rich<'s, char, I::Span>: ErrK<'s, I>,
 {
-    let p = match guarded(|| build::<I, Rich<'s, char, I::Span>>(g, Opts { wrap: false, slice: false, obs: false, track: false })) {
+    let p = match guarded(|| build::<I, Rich<'s, char, I::Span>>(g, Opts { wrap: false, slice: false, obs: false, track: false, clone_iter: false })) {
         Ok(p) => p,
         Err(e) => {
             acc.viol(Viol::case(format!("C20: constructing the parser panicked: {}", e), g, &[], json!({"error_type": "Rich", "kind": I::NAME})));
@@ -182,7 +182,7 @@ fn all_types<'s>(acc: &mut Acc, g: &G, bufs: &'s [Buf], tot: &Tot, types: u8) {
     type I<'s> = &'s str;
     macro_rules! ty {
         ($t:ty, $name:expr) => {{
-            let p = match guarded(|| build::<I<'s>, $t>(g, Opts { wrap: false, slice: false, obs: false, track: false })) {
+            let p = match guarded(|| build::<I<'s>, $t>(g, Opts { wrap: false, slice: false, obs: false, track: false, clone_iter: false })) {
                 Ok(p) => p,
                 Err(e) => {
                     acc.viol(Viol::case(format!("C20: constructing the parser panicked: {}", e), g, &[], json!({"error_type": $name})));
